@@ -251,13 +251,17 @@ fn paid_work(rep: &mut Report, p: &Params) {
         fab.coins.push((id, CoinDataHeight { coin_data: CoinData { covhash: addr_of(&bytes), value: CoinValue(value), denom: Denom::Mel, additional_data: Bytes::new() }, height: BlockHeight(1_000_000) }));
         let db = new_db();
         let st = fab.build(&db).next_unsealed();
+        // the spender is of any kind (a Faucet-kind transaction may list inputs too; Stake/DoscMint/pool kinds with data that
+        // will not parse are refused sooner or later - the question here is only what they made the validator run first)
+        let kind = if r.chance(1, 2) { TxKind::Normal } else { *r.pick(&[TxKind::Faucet, TxKind::Stake, TxKind::DoscMint, TxKind::Swap, TxKind::LiqDeposit, TxKind::LiqWithdraw]) };
+        let data = if r.chance(1, 2) { Bytes::new() } else { Bytes::from(r.bytes(1 + r.clone().usize(40))) };
         let mk = |fee: u128| Transaction {
-            kind: TxKind::Normal,
+            kind,
             inputs: vec![id],
             outputs: vec![CoinData { covhash: crate::gen::destroy_addr(), value: CoinValue(value - fee), denom: Denom::Mel, additional_data: Bytes::new() }],
             fee: CoinValue(fee),
             covenants: vec![Bytes::from(bytes.clone())],
-            data: Bytes::new(),
+            data: data.clone(),
             sigs: vec![],
         };
         let min = crate::model::big_to_u128_sat(&crate::model::ref_min_fee(&mk(0), mult));
@@ -273,13 +277,14 @@ fn paid_work(rep: &mut Report, p: &Params) {
             rep.nontrivial(fnv(format!("paid|{}|{}|{}|{}|{}", mult, n1, n2, cls, i).as_bytes()));
             let accepted = matches!(res, Ok(Ok(())));
             rep.count(&format!("paid-work probes: {} -> {}", cls, if accepted { "accepted" } else { "rejected" }));
+            rep.count(&format!("paid-work probes with a spender of kind {}", kind));
             // steps * mult / 65536 <= fee offered
             let cost = BigUint::from(steps) * BigUint::from(mult) / BigUint::from(65536u32);
             if cost > BigUint::from(fee) {
                 rep.violate(
-                    &format!("C11|unpaid-work|apply_tx|{}", if fee < min { "fee-below-minimum" } else { "fee-at-or-above-minimum" }),
+                    &format!("C11|unpaid-work|apply_tx|{}{}", if fee < min { "fee-below-minimum" } else { "fee-at-or-above-minimum" }, if kind == TxKind::Normal { String::new() } else { format!(",kind={}", kind) }),
                     format!("a transaction offering a fee of {} (minimum {}) made the validator execute {} instructions, worth {} at multiplier {}", fee, min, steps, cost, mult),
-                    json!({"multiplier": mult.to_string(), "fee": fee.to_string(), "minimum_fee": min.to_string(), "covenant_weight": cov_weight.to_string(), "instructions_executed": steps, "accepted": accepted, "covenant": ops_brief(&ops), "net": format!("{:?}", net), "result": format!("{:?}", res.as_ref().map_err(|e| e.message.clone()))}),
+                    json!({"multiplier": mult.to_string(), "fee": fee.to_string(), "minimum_fee": min.to_string(), "covenant_weight": cov_weight.to_string(), "instructions_executed": steps, "accepted": accepted, "covenant": ops_brief(&ops), "net": format!("{:?}", net), "kind": format!("{}", kind), "tx_hex": hex::encode(stdcode::serialize(&tx).unwrap()), "result": format!("{:?}", res.as_ref().map_err(|e| e.message.clone()))}),
                 );
             }
             if fee >= min && !accepted {
